@@ -42,3 +42,4 @@ pub fn strs(v: &Value) -> Vec<String> {
 }
 
 pub mod evgen;
+pub mod sim;
